@@ -17,7 +17,8 @@
  *   bodyLen2 seed2   a second, concurrent transfer on the same session (token a2…, resource/body 2)
  *
  * Log tokens (space separated):
- *   tx:<side>:<K>:<code>:<tokclass>:<b1>:<b2>:<size1>:<size2>:<etag>:<rtag>:<pllen>:<plhash>:<dgramlen>
+ *   tx:<side>:<K>:<code>:<tokclass>:<b1>:<b2>:<size1>:<size2>:<etag>:<rtag>:<pllen>:<plhash>:<dgramlen>:<mid>
+ *   adl-fail:<n> / adlr-fail:<n>  coap_add_data_large_request / _response returned 0 (transfer n refused);  txcap = harness datagram cap hit
  *        side c|s, K = C|N|A|R, tokclass app1|app2|lib|none, b1/b2 = num.m.szx or -, etag/rtag = 1/0
  *   req:<res>:<off>:<total>:<len>:<hash>            server request handler call (res = 1|2)
  *   rsp:<tokclass>:<code>:<off>:<total>:<len>:<hash> client response handler call
@@ -68,9 +69,10 @@ static void xf_tx_logger(const sim_dgram_t *d) {
   }
   fmt_block(b1, p, COAP_OPTION_BLOCK1); fmt_block(b2, p, COAP_OPTION_BLOCK2);
   fmt_uint_opt(s1, p, COAP_OPTION_SIZE1); fmt_uint_opt(s2, p, COAP_OPTION_SIZE2);
-  sim_logf("tx:%s:%c:%d:%s:%s:%s:%s:%s:%d:%d:%zu:%08x:%zu", side, sim_kind[d->type & 3], d->code, tokclass(d->token, d->tkl),
+  sim_logf("tx:%s:%c:%d:%s:%s:%s:%s:%s:%d:%d:%zu:%08x:%zu:%d", side, sim_kind[d->type & 3], d->code, tokclass(d->token, d->tkl),
            b1, b2, s1, s2, coap_check_option(p, COAP_OPTION_ETAG, &oi) ? 1 : 0, coap_check_option(p, COAP_OPTION_RTAG, &oi) ? 1 : 0,
-           d->pl_len, d->pl_hash, d->len);
+           d->pl_len, d->pl_hash, d->len, d->mid);
+  if (d->seq + 2 >= SIM_MAX_TX) sim_logf("txcap");
   coap_delete_pdu(p);
 }
 
@@ -109,8 +111,11 @@ static void xf_hnd_get(coap_resource_t *r, coap_session_t *s, const coap_pdu_t *
   int which = (int)(intptr_t)coap_resource_get_userdata(r);
   sim_logf("req:%d:0:0:0:%08x", which + 1, sim_fnv(NULL, 0));
   coap_pdu_set_code(rsp, COAP_RESPONSE_CODE_CONTENT);
-  coap_add_data_large_response(r, s, req, rsp, q, COAP_MEDIATYPE_APPLICATION_OCTET_STREAM, -1, 0, xf_len[which], xf_body[which],
-                               xf_rel_cb, (void *)(intptr_t)which);
+  if (!coap_add_data_large_response(r, s, req, rsp, q, COAP_MEDIATYPE_APPLICATION_OCTET_STREAM, -1, 0, xf_len[which], xf_body[which],
+                                    xf_rel_cb, (void *)(intptr_t)which)) {
+    sim_logf("adlr-fail:%d", which + 1);
+    coap_pdu_set_code(rsp, COAP_RESPONSE_CODE_INTERNAL_ERROR);
+  }
 }
 static coap_response_t xf_on_response(coap_session_t *session, const coap_pdu_t *sent, const coap_pdu_t *rcvd, const coap_mid_t mid) {
   coap_bin_const_t tok = coap_pdu_get_token(rcvd);
